@@ -86,6 +86,14 @@ def check_case(case):
                 step = step.clear_features(n)
             if not (step == r) or model_of(step) != wm:
                 bad('erase-compose', f'clear{names} differs from erasing one name at a time on {canon(mc)}')
+        # a value that is itself the result of an erasure is erased like any other value: growing name sets,
+        # starting from the empty one (the English rules erase 'nb', then 'X' and 'nb', from the same objects)
+        for k in range(len(names)):
+            chain = c.clear_features(*names[:k]).clear_features(*names)
+            if model_of(chain) != wm:
+                bad('erase-chain', f'{canon(mc)}.clear_features{names[:k]}.clear_features{names} gives {chain}, '
+                    f'expected {canon(wm)}')
+                break
         if not (r ^ c):
             bad('erase-shape', 'erasure changed more than features')
         if model_of(c.clear_features()) != mc:
